@@ -164,6 +164,7 @@ class SLE(Equilibrium, phases='ls'):
         if not mol_solute:
             raise RuntimeError('no solute available')
         nonzero = frozenset(mol.nonzero_keys())
+        self._chemical = None # Only set if the solute is the single chemical in equilibrium
         if self._nonzero == nonzero:
             index = self._index
         else:
